@@ -36,6 +36,10 @@ C14 enumerated `filter` / `unfilter` directly and never drove the encoder's row 
 reconstruction is the identity".  Strengthened with `props/c14_enc.rs` (every row the encoder emits through `write_image_data` and `StreamWriter`, over 1..4 images
 of different sizes, reconstructed with the specification's formula from the harness's own parse of the file); C14_7 and the older C14_3 (previous-row buffer not
 cleared between frames, until then caught by C03 only) are now caught by C14 with a shrunk two-image session.
+Wave 12 (C08, C12, C16, C19, two changes each): 8 kept; all 8 caught by the property's own check at first evaluation; one of them (C19_10: a rectangle bound
+check written as `offset + size > canvas`) at first only through its broken kernel theorem (Tie A part 2), i.e. reported with `no-failing-input-found`, because
+no generator offered a rectangle setter a value near `u32::MAX`; the generators now do, and the re-evaluation reports the overflow panic with its operation
+sequence.  This is the first seeded change that the translated-kernel theorems caught BEFORE the differential harness did.
 
 | id | breaks | change | needs | caught by (quick tier) | what had to be strengthened |
 |---|---|---|---|---|---|
